@@ -229,7 +229,7 @@ PROPS = {
             "Ref::vector_iter / VectorIter (iter::Zip of two slice iterators), From<Ref> for Datum, AsRef/Deref for Ref are not under contract",
             "impl Iterator for datum::ListIter is verified as an inherent method (its contract needs a precondition)",
         ],
-        not_covered=["value equality of next_datum and next_value results (bounded stand-in only)", "Ref::vector_iter, VectorIter::next", "value_iter / datum_iter / Iterator for Parser"],
+        not_covered=["value equality of next_datum and next_value results (bounded stand-in only)", "Ref::vector_iter, VectorIter::next"],
         trusted=STD_TRUST,
     ),
     "C11": dict(
@@ -285,7 +285,7 @@ PROPS = {
                     "option sets and any source satisfying the Read contract.",
         assumptions=[
                      "allocation failure and stack size are not modelled (Vec::push assumed to succeed)"],
-        not_covered=["f64_from_parts body (float arithmetic)", "value_iter / datum_iter / Iterator for Parser / from_* entry points"],
+        not_covered=["f64_from_parts / f64_from_radix_parts bodies (floating-point arithmetic crashes the Verus front end: assumed; the c03 stand-in covers the scaling-table edges)", "impl FromStr for Value (one-line delegation)"],
         trusted=STD_TRUST,
     ),
 }
